@@ -175,6 +175,11 @@ def _election(eseed, district=False, big=False, n_units=None):
             # the baseline of turnout may be pointed at another column by the configuration (`baseline_pointer`); the
             # column is there for every unit, requests on even elections use it (seeded change C13_H)
             pre["baseline_turnout_pres"] = (pre["baseline_turnout"] * 1.15).round().astype(int)
+            # (for a few units the other baseline is far away: a turnout factor computed against it would fall outside the
+            #  limits, one computed against baseline_turnout does not - which units are set aside must not depend on whether
+            #  turnout is among the requested estimands)
+            for j in (3, 8, 14, 21):
+                pre.loc[j, "baseline_turnout_pres"] = int(pre.loc[j, "baseline_turnout"] * 2.6)
             # one reporting unit is the only one of its classification: with fixed effects on the classification a
             # calibration split can leave that value out of the training rows (whatever the code then does must be
             # derived from the seed: seeded change C12_H)
